@@ -125,7 +125,23 @@ fn exec(sc: &Scenario) -> Report {
                 "reset" => {
                     resets += 1;
                     finished = false;
-                    call(|| pb.reset())
+                    let rr = call(|| pb.reset());
+                    // "reset together with the bar": the state the tracker is handed is the
+                    // bar's state after the reset (a tracker that takes a baseline from it would
+                    // otherwise render values the bar never had)
+                    let seen = obs.lock().unwrap().last_reset_state;
+                    if rr.is_ok() && seen != Some((pb.position(), pb.is_finished())) {
+                        r.violate(
+                            "C11.tracker_reset",
+                            format!(
+                                "{at}: the custom key's tracker was reset with a state showing (position, finished) = {seen:?}, the bar after reset() shows ({}, {})",
+                                pb.position(),
+                                pb.is_finished()
+                            ),
+                        );
+                        return r;
+                    }
+                    rr
                 }
                 "reset_eta" => call(|| pb.reset_eta()),
                 "reset_elapsed" => call(|| pb.reset_elapsed()),
